@@ -24,6 +24,14 @@ def loop(rng):
     return {"family": "loop", "spec": t["spec"], "inputs": t["inputs"], "kw": {}, "unique_outputs": False, "ref": t["ref"], "template": t["template"]}
 
 
+def waitdag(rng):
+    spec = gen.gen_wait_dag(rng, False, p_default_edge=rng.choice([0.0, 0.3]))
+    inputs = {k: f"run:{k}" for k in gen.consumed_inputs(spec)}
+    if "sg" in inputs:
+        inputs["sg"] = rng.randint(0, 1)
+    return {"family": "waitdag", "spec": spec, "inputs": inputs, "kw": {}, "unique_outputs": True}
+
+
 def pick(rng, names):
     n = rng.choice(names)
     if n == "dag":
@@ -34,4 +42,6 @@ def pick(rng, names):
         return gated(rng)
     if n == "loop":
         return loop(rng)
+    if n == "waitdag":
+        return waitdag(rng)
     raise ValueError(n)
